@@ -17,12 +17,16 @@ import (
 
 const c15YearsPerUnit = 25
 
+// set by c15report.go (which needs the CLI driver and therefore the verif build tag)
+var c15ReportHook func(c *fw.Ctx)
+
 func init() {
 	fw.Register(&fw.Check{
 		ID:    "C15",
 		Title: "Calendar periods tile the calendar exactly",
 		Rule: "every date 0000-01-01..9999-12-31 (one case per date; all are distinct and non-trivial) and every pattern string " +
 			"YYYY, YYYY-MM (00-99), YYYY-Qq (0-9), YYYY-Www (00-99), YYYY-Ww (0-9) plus shape near-misses plus every single-character substitution / insertion (15 characters: signs, blanks, separators, letters, non-ASCII digits) and deletion on one pattern of each shape, for all 10^4 years; " +
+			"plus `klog report` for every pair of 13 dates at the calendar's edges x 5 aggregations: same row exactly when same period; " +
 			"a case is a (date) or (pattern) and is hashed by its text",
 		Assumptions: []string{
 			"specmodel calendar (integer civil<->day arithmetic, ISO week by the Thursday rule); cross-checked against Go's time package on every day at the start of each unit",
@@ -76,6 +80,12 @@ func c15Replay(c *fw.Ctx, raw json.RawMessage) {
 	if json.Unmarshal(raw, &cs) != nil {
 		return
 	}
+	if cs.Kind == "report" {
+		if c15ReportHook != nil {
+			c15ReportHook(c)
+		}
+		return
+	}
 	if cs.Kind == "date" {
 		d, ok := sm.ParseDate(cs.Date)
 		if ok {
@@ -87,6 +97,9 @@ func c15Replay(c *fw.Ctx, raw json.RawMessage) {
 }
 
 func c15Unit(c *fw.Ctx, unit int) {
+	if unit == 0 && c15ReportHook != nil {
+		c15ReportHook(c)
+	}
 	y0 := unit * c15YearsPerUnit
 	y1 := y0 + c15YearsPerUnit - 1
 	calendarSelfTest(c, y0, y1)
